@@ -75,9 +75,19 @@ Definition stale_migration (s : pstate) : bool :=
                 | None => true
                 end) (ps_dobj s).
 
+(* a delete event that is routed to the pod's own (new) quota while the pod is cached in the default one *)
+Definition lost_delete (s : pstate) (o : pop) : bool :=
+  match o with
+  | PlPodDelete p => negb (resolve (ps_core s) (pp_label p) =? 2) && in_default (ps_core s) (p_id (pp_pod p))
+  | _ => false
+  end.
+
 (* sig 1: a pod sits in the default quota's cache and in its own quota's cache (update event
           between the creation of its quota and the next migration run)
-   sig 2: a migration run moved a pod with a stale stored object *)
+   sig 2: a migration run moves a pod with a stale stored object, or a delete event misses the pod
+          that still waits in the default quota (so that a deleted pod is migrated later)
+   The shape must be what makes the MODEL's figures wrong: a wrong figure before the first shape
+   gives 0. *)
 Fixpoint psig (fuel : nat) (s : pstate) (rest : list pop) : Z :=
   match fuel, rest with
   | S f, o :: t =>
@@ -85,13 +95,25 @@ Fixpoint psig (fuel : nat) (s : pstate) (rest : list pop) : Z :=
         let s' := pstep s o in
         if negb (nodupb (all_pod_ids (ps_core s'))) then 1
         else if (match o with PlMigrate => true | _ => false end) && stale_migration s then 2
+        else if lost_delete s o then 2
+        else if negb (pstate_code s' =? 0) then 0
         else psig f s' t
       else 0
   | _, _ => 0
   end.
 
+Fixpoint eq_listZ (a b : list Z) : bool :=
+  match a, b with
+  | [], [] => true
+  | x :: a', y :: b' => (x =? y) && eq_listZ a' b'
+  | _, _ => false
+  end.
+
+(* a known shape only explains an observable that is exactly the faithful model's: any other wrong
+   figure at the plugin layer keeps signature 0 and is reported as a plain violation *)
 Definition finding_sig (inp obs : list Z) : Z :=
-  let '(sm, dm, ops) := pdecode inp in psig (length ops) (pinit sm dm) ops.
+  let '(sm, dm, ops) := pdecode inp in
+  if eq_listZ obs (run_case inp) then psig (length ops) (pinit sm dm) ops else 0.
 
 Definition nontrivial_case (inp : list Z) : bool :=
   let '(sm, dm, ops) := pdecode inp in
